@@ -114,3 +114,17 @@ def path(ctx, cfg):
     ctx.require(ok, "per-vertex-counts", lambda: f"{desc}: distribution {jdd}, expected counts {cnt} over {V} vertices",
                 twin=(cols_ok and set(jdd) == set(cnt) and all(close(jdd[t] * V, cnt[t] + 1) for t in cnt)), sig="per-vertex-counts")
     ctx.observe("jdd", sorted((list(k) if isinstance(k, tuple) else k, v) for k, v in jdd.items()) if isinstance(jdd, dict) else None)
+    if cfg["kind"] in ("pattern", "big") and ok and not second:
+        # the consequence clause: a sample of N=1 from the loader is padded to multiples of the reported (possibly non-adjacent) sizes,
+        # with fewer than size_k added stubs per column
+        draw = ctx.guard("sampling-raised", obj.sample_jds_from_jdd, 1)
+        rec = [c for c in ctx.rng_log if c["fn"] == "choices"]
+        if len(rec) == 1 and len(draw) == 1 and len(draw[0]) == len(sizes):
+            base = rec[0]["result"][0]
+            conds = []
+            for k, sz in enumerate(sizes):
+                conds.append(draw[0][k] % sz == 0)
+                conds.append(draw[0][k] - base[k] >= 0)
+                conds.append(draw[0][k] - base[k] < sz)
+            ctx.require(all_(conds), "sample-respects-reported-sizes", lambda: f"{desc}: drawn {base} -> {draw[0]} for reported sizes {sizes}", sig="sample-respects-reported-sizes")
+
